@@ -25,7 +25,10 @@ RULE = ("digraphs of 2..8 nodes (10 thorough): random multigraphs (parallel/anti
         "'two disjoint s-t paths + a crossing arc that BFS takes first' whose maximum needs a reverse residual "
         "arc with and without an explicit reverse key, and (15 % of the cases) anti-parallel pairs u<->v where f units "
         "first go over v->u and a later shortest path pushes max(f, cap(u,v)) < d <= cap(u,v)+f through u->v (partial "
-        "cancellation, counted as `partial_cancel`); non-trivial = the mirror made >= 2 augmentations or "
+        "cancellation, counted as `partial_cancel`), and (12 %) gadgets s->a->b->t with side chains of increasing length that "
+        "force 'use a->b, cancel it through b->a on a longer path, push a->b again on a still longer path' (capacities 1 "
+        "or k, 1-3 gadgets, up to ~40 nodes; counted as `repush_after_cancel`); node labels include None, 0, '', (), "
+        "frozenset(), -1, 0.5 and tuples; non-trivial = the mirror made >= 2 augmentations or "
         "cancelled flow on a reverse arc; distinct by canonical (graph, source, sink)")
 FN = "max_flow"
 
@@ -222,15 +225,60 @@ def gen_antiparallel(rng, big):
     return _finish(rng, n, arcs, s, t, shuffle_keys=rng.random() < 0.5)
 
 
+def gen_repush(rng, big):
+    """middle arcs a->b that are used, later cancelled through b->a, later pushed forward again.  Per gadget:
+    s -> a -> b -> t is the unique shortest path (P1, saturates all three arcs); chains C: s ~> b (lc arcs) and
+    D: a ~> t (ld arcs) make the next path  s ~C~> b =(reverse of a->b)=> a ~D~> t  (lc + 1 + ld arcs) and are
+    saturated by it; the only way to the last k units is  s ~E~> a -> b ~F~> t  over the longer chains E (le >= lc + 2
+    arcs) and F (lf >= ld + 2 arcs), i.e. a->b must be followed forward again after its flow was cancelled.
+    Capacities are 1 or k throughout; several gadgets share s and t."""
+    k = rng.choice([1, 1, 1, 2, 3, 7])
+    gadgets = rng.choice([1, 1, 2]) if not big else rng.choice([1, 2, 2, 3])
+    s, t = 0, 1
+    nid = 2
+    arcs = []
+    for _ in range(gadgets):
+        lc = rng.choice([2, 2, 3])
+        ld = rng.choice([2, 2, 3])
+        le = lc + 2 + rng.choice([0, 0, 1])
+        lf = ld + 2 + rng.choice([0, 0, 1])
+        a, b = nid, nid + 1
+        nid += 2
+
+        def chain(x, y, length):
+            nonlocal nid
+            inner = list(range(nid, nid + length - 1))
+            nid += length - 1
+            nodes = [x] + inner + [y]
+            return [(nodes[i], nodes[i + 1], k) for i in range(length)]
+        # per-node order: s lists a first, a lists b first (ties between equally long first paths)
+        arcs += [(s, a, k), (a, b, k), (b, t, k)]
+        arcs += chain(s, b, lc) + chain(a, t, ld) + chain(s, a, le) + chain(b, t, lf)
+        if rng.random() < 0.3:      # explicit reverse arc of the middle arc (capacity 0 or k): an anti-parallel pair
+            arcs.append((b, a, rng.choice([0, 0, k])))
+    n = nid
+    r = rng.random()
+    if r < 0.2:
+        for _ in range(rng.randint(1, 2)):
+            x, y = rng.sample(range(n), 2)
+            arcs.append((x, y, 0))
+    elif r < 0.3:
+        x, y = rng.sample(range(n), 2)
+        arcs.append((x, y, rng.randint(1, 2)))   # noise that may or may not destroy the pattern
+    return _finish(rng, n, arcs, s, t, shuffle_keys=rng.random() < 0.5)
+
+
 def gen_case(rng, big):
     r = rng.random()
-    if r < 0.38:
+    if r < 0.32:
         return gen_random(rng, big)
-    if r < 0.60:
+    if r < 0.52:
         return gen_layered(rng, big)
-    if r < 0.85:
+    if r < 0.75:
         return gen_cross(rng, big)
-    return gen_antiparallel(rng, big)    # fixed share (15 %) in both tiers
+    if r < 0.88:
+        return gen_antiparallel(rng, big)    # fixed share (13 %) in both tiers
+    return gen_repush(rng, big)              # fixed share (12 %) in both tiers
 
 
 def edge_cases():
@@ -247,6 +295,12 @@ def edge_cases():
     # partial cancellation on an anti-parallel pair: 2 units go v->u first, then 3 units come through u->v (cap 1)
     yield {"graph": [["s", [["v", 2], ["a", 3]]], ["v", [["u", 2], ["b", 3]]], ["a", [["u", 3]]], ["u", [["t", 2], ["v", 1]]],
                      ["b", [["t", 3]]]], "source": "s", "sink": "t"}
+    # a node labelled None in front of the sink / as the source / as the sink
+    yield {"graph": [["s", [[None, 5]]], [None, [["t", 5]]]], "source": "s", "sink": "t"}
+    yield {"graph": [[None, [["t", 5], ["a", 2]]], ["a", [["t", 2]]]], "source": None, "sink": "t"}
+    yield {"graph": [["s", [["a", 2], [None, 2]]], ["a", [[None, 2]]]], "source": "s", "sink": None}
+    yield {"graph": [[0, [[{"tuple": []}, 2], ["", 1]]], [{"tuple": []}, [[{"frozenset": []}, 2]]], ["", [[{"frozenset": []}, 3]]]],
+           "source": 0, "sink": {"frozenset": []}}
 
 
 # ---------------------------------------------------------------------------
@@ -256,7 +310,7 @@ def edge_cases():
 def impl(case):
     from solvor.flow import max_flow
     g = fc.graph_dict(case["graph"])
-    r = max_flow(g, case["source"], case["sink"])
+    r = max_flow(g, fc.dec(case["source"]), fc.dec(case["sink"]))
     sol = r.solution
     flow = None
     if isinstance(sol, dict):
@@ -289,7 +343,7 @@ def prepare(case, out):
                     iflow.append([idx[u], idx[v], xi])
         if problem:
             iflow, iobj = None, None
-    req = ["maxflow", len(idx), arcs, idx[case["source"]], idx[case["sink"]], iflow, iobj]
+    req = ["maxflow", len(idx), arcs, idx[fc.dec(case["source"])], idx[fc.dec(case["sink"])], iflow, iobj]
     return req, problem
 
 
@@ -300,7 +354,7 @@ def has_missing_reverse_key(arcs):
 
 def judge(ctx, case, out, req, problem, reply):
     rep = {"case": case, "impl": out, "model": reply}
-    m_value, m_flow, m_vis, m_augs, m_cancels, m_done, m_cert, ichk, m_partial = reply
+    m_value, m_flow, m_vis, m_augs, m_cancels, m_done, m_cert, ichk, m_partial, m_repush = reply
     if not (m_done and m_cert):
         raise Infra(f"C08 model did not certify its own answer (done={m_done}, cert={m_cert}) on {case}")
     ctx.count("cert_checked_model")
@@ -308,6 +362,8 @@ def judge(ctx, case, out, req, problem, reply):
     nontrivial = m_augs >= 2 or m_cancels >= 1
     if m_partial:     # an augmentation met 0 < flow[v][u] < path_flow (cancel partly, push the rest forward)
         ctx.count("partial_cancel")
+    if m_repush:      # an arc whose flow had been cancelled through its reverse residual arc is pushed forward again
+        ctx.count("repush_after_cancel")
     ctx.count(f"augmentations:{min(m_augs, 6)}{'+' if m_augs >= 6 else ''}")
     if m_cancels:
         ctx.count("reverse_arc_cancelled")
@@ -348,8 +404,7 @@ def judge(ctx, case, out, req, problem, reply):
                  "(verified checker chkValue)", rep)
     if not bad:
         if obj < m_value:
-            feature = ":reverse_key_absent" if has_missing_reverse_key(req[2]) else ""
-            ctx.fail(FN, "not_maximum" + feature,
+            ctx.fail(FN, "not_maximum",
                      f"feasible flow of value {obj}, but the certified maximum (= capacity of the cut {m_vis}) is {m_value}",
                      rep)
         elif obj > m_value or not cut:
@@ -431,7 +486,7 @@ def excluded_region(ctx):
 
 def _summarise(ctx):
     h = ctx.cov["histogram"]
-    for k in ("cert_checked_model", "cert_checked_impl", "r_prop_agree", "r_trace_agree", "partial_cancel"):
+    for k in ("cert_checked_model", "cert_checked_impl", "r_prop_agree", "r_trace_agree", "partial_cancel", "repush_after_cancel"):
         ctx.cov[k] = h.get(k, 0)
     ctx.cov["timeouts"] = sum(v for k, v in h.items() if k.startswith("fail:") and ":no_return" in k)
 
